@@ -12,6 +12,7 @@ import random
 
 from .. import gen
 from ..engine import generic_shrink
+from ..world import target_kwargs
 from .common import (Sim, SimEndpoint, Result, run_once, StepCapExceeded, violation, finish, compare_results,
                      check_invariants, shape_stats, set_knob, NEVER_FLUSH, components, sha)
 
@@ -89,7 +90,7 @@ def generate(rng, tier, index):
 
 def _kwargs(scen, **extra):
     kw = {}
-    kw.update(copy.deepcopy(scen["target"]))
+    kw.update(target_kwargs(scen["target"]))
     kw.update(copy.deepcopy(scen["options"]))
     kw["namespaces_dict"] = copy.deepcopy(scen["ns"])
     kw.update(extra)
@@ -185,7 +186,7 @@ def _capped_reference(sim, scen, triples, ep):
     opts = copy.deepcopy(scen["options"])
     del opts["instances_cap"]
     kw = {}
-    kw.update(copy.deepcopy(scen["target"]))
+    kw.update(target_kwargs(scen["target"]))
     kw.update(opts)
     kw["namespaces_dict"] = copy.deepcopy(scen["ns"])
     kw["graph_file_input"] = f_graph
